@@ -1,5 +1,5 @@
 use crate::axync::{
-    bounded, select, stop_channel, unbounded, Receiver, RecvError, Sender, WaitGroup,
+    bounded, select, stop_channel, unbounded, Receiver, RecvError, Sender, WaitGroup, WaitSignal,
 };
 use crate::cache::builder::CacheBuilderCore;
 use crate::policy::AsyncLFUPolicy;
@@ -296,7 +296,7 @@ pub(crate) enum Item<V> {
         key: u64,
         conflict: u64,
     },
-    Wait(WaitGroup),
+    Wait(WaitSignal),
 }
 
 impl<V> Item<V> {
@@ -555,7 +555,7 @@ where
         }
 
         let wg = WaitGroup::new();
-        let wait_item = Item::Wait(wg.add(1));
+        let wait_item = Item::Wait(WaitSignal(wg.add(1)));
         match self.insert_buf_tx.try_send(wait_item) {
             Ok(_) => {
                 wg.wait().await;
@@ -728,6 +728,9 @@ where
     #[inline]
     pub(crate) fn handle_close_event(&mut self) -> Result<(), CacheError> {
         self.insert_buf_rx.close();
+        // A closed channel keeps what is already queued while a sender is alive: drop it now so
+        // that buffered `Wait` markers release their waiters.
+        while self.insert_buf_rx.try_recv().is_ok() {}
         self.clear_rx.close();
         self.stop_rx.close();
         Ok(())
